@@ -290,6 +290,7 @@ type c07Handler struct {
 	release chan struct{}
 	done    chan struct{}
 	werr    error
+	code    int // != 0: answer with InboundCallResponse.SendSystemError(code) (set before release)
 }
 
 type c07Handlers struct {
@@ -335,6 +336,11 @@ func (hs *c07Handlers) handle(ctx context.Context, call *tchannel.InboundCall) {
 	}
 	close(h.entered)
 	<-h.release
+	if h.code != 0 {
+		h.werr = call.Response().SendSystemError(tchannel.NewSystemError(tchannel.SystemErrCode(h.code), "c07 handler error"))
+		close(h.done)
+		return
+	}
 	err := tchannel.NewArgWriter(call.Response().Arg2Writer()).Write(a2)
 	if err == nil {
 		err = tchannel.NewArgWriter(call.Response().Arg3Writer()).Write(a3)
